@@ -853,3 +853,14 @@ def run(ctx, res):
         except AnalysisError as e:
             res.undecided('R-C03-' + rule.__name__[5:], rule.__name__,
                           'analysis', str(e))
+    # "identical Lua code": the __lua__ section is written through the echo
+    # writer, which re-spells every string literal from its decoded value
+    # (TokString.code); reading it back must give the same value (shared with
+    # C06 -- a literal that closes early changes the code that follows it)
+    from . import c06
+    from .. import leximpl
+    try:
+        c06.rule_escapes(ctx, res, leximpl.LexerSource(ctx))
+    except AnalysisError as e:
+        res.undecided('R-C06-escapes', 'pico8.lua.lexer:TokString.code',
+                      'analysis', str(e))
